@@ -52,6 +52,7 @@ def check(ctx):
     ctx.rule("R-C02.1", "the weak order induced by _BINARY_PRECEDENCE equals C99's ten binary-operator levels")
     ctx.rule("R-C02.2", "precedence climbing: exit on strictly lower precedence, recurse only for strictly tighter operators with (next_prec, rhs), operands at cast level")
     ctx.rule("R-C02.4", "adjacent string literals: the accumulated spelling loses exactly its closing quote and every following piece exactly its prefix and opening quote (prefix lengths from the lexer's token languages)")
+    ctx.rule("R-C02.5", "the expression slots of statements (conditions, loop clauses, return / expression statements) are parsed at the grammar level C gives them - a full comma expression (decided by the reviewed statement wiring of C05)")
     ctx.rule("R-C02.3", "every expression production wires operators, operands (parsed at the right grammar level, in source order), names and spellings into its node as the reviewed reference says")
     t = S.tables()
     px = S.module("c_parser")
@@ -172,6 +173,11 @@ def check(ctx):
                        "expression tree wiring deviates from C's grammar", returns=True, appends=True)
     ctx.unit("expression productions compared", n)
     ctx.require_instances("R-C02.3", 60)
+    # expression slots OUTSIDE the expression productions: the controlling expressions of statements take a full (comma) expression - 6.8.4 / 6.8.5 /
+    # 6.8.6.4 - so `do ; while (a, b);` groups as one ExprList; the level each slot is parsed at is part of the reviewed statement wiring (C05)
+    from . import share
+    EXPR_SLOTS = (".cond:", ".expr:", ".next:", ".init:", ".iftrue:", ".iffalse:")
+    share.borrow(ctx, "C05", ("R-C05.1",), "R-C02.5", keep=lambda f: any(k in f.message for k in EXPR_SLOTS), count=12)
     ctx.info["explanation"] = ("order comparison of the folded precedence table with C99's ten levels (all operator pairs); relational recognition of the precedence-climbing schema; flow-sensitive "
                                "def-use wiring of every constructor site, return and list append of the 18 expression productions compared with the reviewed reference in sa/wiring_ref.json "
                                "(operand provenance = producing call site of the production of the right level, token provenance = set of token types the call site can consume)")
